@@ -334,6 +334,7 @@ let step_preds : (string * (vconfig -> fstep -> bool)) list = [
   ("c14_datagram_ok", c14_datagram_ok);
   ("c14_segments_ok", c14_segments_ok);
   ("c08_deadline_ok", c08_deadline_ok);
+  ("c14_wire_ok", c14_wire_ok);
   ("c06_no_resend_acked", c06_no_resend_acked);
   ("c05_zero_window_strict", c05_zero_window_strict);
   ("c05_d16_class_neg", (fun c st -> not (c05_d16_class c st)));
@@ -377,6 +378,7 @@ let trace_preds : (string * (vconfig -> fstep list -> bool)) list = [
   ("c06_rp_exit_ok", c06_rp_exit_ok);
   ("c07_idle_silent_partial", c07_idle_silent_partial);
   ("c07_trigger_ok", c07_trigger_ok);
+  ("c08_fires_ok", c08_fires_ok);
   ("c17_fin_seq_ok", c17_fin_seq_ok);
   ("c17_peer_fin_ok", c17_peer_fin_ok);
   ("c17_reset_trace_ok", c17_reset_trace_ok);
